@@ -212,6 +212,16 @@ impl<F: Float + SampleUniform + std::fmt::Debug, D: Hash + Copy, H: Hasher + Def
         //
         Ok(())
     } // end of densify
+    /// verification hook: (float sketch, u64 values, init flags, nb_empty), readable before end_sketch
+    #[cfg(probminhash_verif)]
+    pub fn verif_state(&self) -> (Vec<F>, Vec<u64>, Vec<bool>, i64) {
+        (
+            self.hsketch.clone(),
+            self.values.clone(),
+            self.init.clone(),
+            self.nb_empty,
+        )
+    }
 } // end of impl OptDensMinHash
 
 // ==============================================================================
@@ -394,6 +404,16 @@ impl<F: Float + SampleUniform + std::fmt::Debug, D: Hash + Copy, H: Hasher + Def
         }
         let res = self.densify();
         assert!(res.is_ok());
+    }
+    /// verification hook: (float sketch, u64 values, init flags, nb_empty), readable before end_sketch
+    #[cfg(probminhash_verif)]
+    pub fn verif_state(&self) -> (Vec<F>, Vec<u64>, Vec<bool>, i64) {
+        (
+            self.hsketch.clone(),
+            self.values.clone(),
+            self.init.clone(),
+            self.nb_empty,
+        )
     }
 } // end of impl RevOptDensMinHash
 
